@@ -60,7 +60,7 @@ def handle (j : Json) : String :=
     | .error e => errOut e
     | .ok (s, env) =>
       "{\"ok\":{\"canon\":" ++ jsonStr (Canon.canon s) ++ ",\"names\":[" ++
-        ",".intercalate (env.map fun (k, _) => jsonStr k) ++ "]}}"
+        ",".intercalate (env.map fun (k, _) => jsonStr k) ++ "]},\"toraw\":" ++ ofVal (Canon.toRaw s) ++ "}"
   | "enc" =>
     match parseReq j with
     | .error e => "{\"perr\":\"" ++ e.name ++ "\"}"
